@@ -50,6 +50,7 @@ OUT_OF_REACH = ['GSS key exchange']
 REQUIRED = ['covered_edits', 'covered_rejected', 'uncovered_edits',
             'uncovered_completed_agree', 'negotiation_pairs',
             'negotiation_agree', 'disjoint_rejected', 'range_edits',
+            'hostkey_choices',
             'hostkey_swaps']
 BUDGET_S = {'quick': 300, 'thorough': 3400}
 CASE_TIMEOUT_S = 60
@@ -155,6 +156,14 @@ def gen_cases(tier, seed):
                 pool = {'kex': fast, 'enc': encs, 'cmp': cmps}[which]
                 c[which] = c[which][:1]
                 s[which] = [x for x in pool if x not in c[which]][:2]
+        # host keys: the server holds 1..3 keys in some order, the client
+        # ranks the signature algorithms in its own order
+        hk_types = ['ssh-ed25519', 'ecdsa-sha2-nistp256', 'ssh-rsa']
+        s['hostkeys'] = rng.sample(hk_types, rng.randint(1, 3))
+        hk_algs = ['ssh-ed25519', 'ecdsa-sha2-nistp256', 'rsa-sha2-256',
+                   'rsa-sha2-512', 'ssh-rsa']
+        c['hk_algs'] = rng.sample(hk_algs, rng.randint(1, 5)) \
+            if rng.random() < 0.8 else None
         cases.append(dict(kind='neg', client=c, server=s,
                           chunk=rng.choice(['all', 'random']),
                           cseed=rng.randrange(1 << 30)))
@@ -552,9 +561,14 @@ def _run_neg(case, mon, viol):
                       mac_algs=s['mac'], compression_algs=s['cmp'])
         opts_c = dict(kex_algs=c['kex'], encryption_algs=c['enc'],
                       mac_algs=c['mac'], compression_algs=c['cmp'])
+        if c.get('hk_algs'):
+            opts_c['server_host_key_algs'] = c['hk_algs']
+        hkeys = [apps.host_key(t, 3, **({'key_size': 2048}
+                                        if t == 'ssh-rsa' else {}))
+                 for t in s.get('hostkeys', ['ssh-ed25519'])]
         async with scen.Env(loop, server_factory=lambda: apps.RecServer(
                 apps.EventLog()), chunking=case['chunk'], seed=case['cseed'],
-                server_opts=opts_s) as env:
+                server_opts=opts_s, host_keys=hkeys) as env:
             t = tapmod.Tap(env.wire)
             m = HandshakeMITM({'edit': ['none', None], 'kex': ''},
                               random.Random(0), b'')
@@ -569,7 +583,13 @@ def _run_neg(case, mon, viol):
                 cmp_ = fm(c['cmp'], s['cmp'])
                 mac = fm(c['mac'], s['mac'])
                 aead = enc is not None and enc.encode() in R.AEAD
-                expect_ok = bool(kex and enc and cmp_ and (mac or aead))
+                fam = {'rsa-sha2-256': 'ssh-rsa', 'rsa-sha2-512': 'ssh-rsa'}
+                hk = True
+                if c.get('hk_algs'):
+                    hk = next((a for a in c['hk_algs']
+                               if fam.get(a, a) in s['hostkeys']), None)
+                expect_ok = bool(kex and enc and cmp_ and (mac or aead) and
+                                 hk)
                 ct = asyncio.ensure_future(env.connect(**opts_c))
                 env.san.harness_tasks.add(ct)
                 await env.settle()
@@ -600,6 +620,17 @@ def _run_neg(case, mon, viol):
                                      'negotiation_not_first_match',
                                      'detail': f'kex {lt.neg_history[0]} vs '
                                                f'{kex}'})
+                    if c.get('hk_algs'):
+                        mon['hostkey_choices'] += 1
+                        got_t = res.get_server_host_key().get_algorithm()
+                        if got_t != fam.get(hk, hk):
+                            viol.append({
+                                'mechanism': 'negotiation_not_first_match',
+                                'detail': f'host key: server presented a '
+                                          f'{got_t} key, the first client '
+                                          f'preference it supports is {hk}; '
+                                          f'client={c["hk_algs"]} server='
+                                          f'{s["hostkeys"]}'})
                     if res.get_extra_info('send_cipher') != enc:
                         viol.append({'mechanism':
                                      'negotiation_not_first_match',
